@@ -46,7 +46,10 @@ def stepCase (st : St) (v : Verdict) (i : Nat) (opText obs : String) : St × Ver
     match (op.frac "thr") with
     | .ok f =>
       let res := (op.get? "res").getD ""
-      ({ st with m := { m with w := m.w.loadFlow res [{ id := "flow", thr := F64.roundDiv f.num f.den, ivl := 1000 }] } }, v.addTag "flow-rule")
+      let spec : FlowSpec := match (op.get? "maxq").bind String.toNat? with
+        | some q => { id := "flow", thr := F64.roundDiv f.num f.den, ivl := 1000, throttling := true, maxQueueMs := q }
+        | none => { id := "flow", thr := F64.roundDiv f.num f.den, ivl := 1000 }
+      ({ st with m := { m with w := m.w.loadFlow res [spec] } }, v.addTag (if spec.throttling then "throttling-rule" else "flow-rule"))
     | .error e => (st, v.setDiff s!"step={i} {e}")
   | "svc" =>
     let inb := (op.get? "role") != some "client"
